@@ -134,6 +134,12 @@ class Env(object):
 
             def cancelTransmisstion(s, node):
                 s.cancelled.append(node.id)
+
+            def checkSerializing(s):
+                return (0, None)                 # SERIALIZER_STATE.NOT_SERIALIZING
+
+            def serialize(s, data, entry_id):
+                s.serialized = getattr(s, "serialized", []) + [(data, entry_id)]
         self.Ser = Ser
         self.real_mono = self.so.monotonicTime
 
